@@ -245,6 +245,19 @@ pub fn replay_case(line: &str, fuel: usize) -> String {
             }
             if spec_accepts {
                 let out = &v["out"];
+                // C06 (i): normalising a closed ground program the way the checker does = evaluating it
+                if out["r"] == "end" && out["why"] == "value" && matches!(out["t"]["k"].as_str(), Some("lit" | "true" | "false")) {
+                    let el = tj::from_json(o.elab.as_ref().unwrap());
+                    let w = tj::tj(&crate::normalizer::normalize_weak_head(&el, &mut vec![]));
+                    if !same_term(&w, &out["t"]) {
+                        push("C06", "weak-head normal form differs from the value of the program", json!({"whnf": w, "value": out["t"]}));
+                    }
+                    match crate::evaluator::evaluate(&el) {
+                        Ok(val) if same_term(&tj::tj(&val), &out["t"]) => {}
+                        Ok(val) => push("C06", "evaluate() differs from the prescribed value", json!({"value": tj::tj(&val), "want": out["t"]})),
+                        Err(e) => push("C06", "evaluate() fails where the semantics produces a value", json!({"err": crate::diag::plain(&e), "want": out["t"]})),
+                    }
+                }
                 if out["r"] == "end" {
                     let spec_end = &out["t"];
                     let why = out["why"].as_str().unwrap();
